@@ -357,3 +357,108 @@ def run_parallel(cmds, timeout=900, env=None):
             log(err[-1500:])
         res.append((rc, summ, out))
     return res
+
+
+# --------------------------------------------------------------------------------------------
+# the standard three-step pipeline for runtime modules
+# --------------------------------------------------------------------------------------------
+def mc_step(c, module, cfg, workers=8, timeout=3000, what="spec"):
+    r = run_tlc(module, cfg, workers=workers, timeout=timeout)
+    if r.violation:
+        c.violation("%s violates its own invariant: %s (TLC output %s)" % (what, r.violation, r.out), {"tlc_out": r.out})
+        c.finish()
+    c.add_tlc(cfg, r)
+    return r
+
+
+def gen_step(c, module, cfg, name, simulate=None, workers=8, timeout=3000, seed_=None, tag="REPLAY"):
+    wd = workdir(c.prop.lower())
+    out = os.path.join(wd, name + ".gen.out")
+    g = run_tlc(module, cfg, name=name, workers=workers, timeout=timeout, out_path=out, simulate=simulate, seed_=seed_)
+    jsonl = os.path.join(wd, name + ".jsonl")
+    nb = extract_replays(out, jsonl, tag=tag)
+    os.remove(out)
+    if nb == 0:
+        raise ToolError("generator %s produced no behaviours" % cfg)
+    if not simulate:
+        c.add_tlc(cfg, g)
+    else:
+        c.cov["tlc_runs"].append({"config": cfg, "simulate": simulate, "behaviours": nb, "exhaustive": False})
+    with open(jsonl) as f:
+        first = json.loads(f.readline())
+        c.sample(first if len(json.dumps(first)) < 4000 else first[:3])
+    return jsonl, nb
+
+
+def replay_step(c, rt, module_args, jsonl, extra_args=(), parts=4, label="", what="implementation diverges from the specification"):
+    pieces = split_file(jsonl, parts, jsonl + ".part")
+    cmds = [[rt] + list(module_args) + ["replay", p] + list(extra_args) for p in pieces]
+    tb = ts = 0
+    for (rc, summ, out), p in zip(run_parallel(cmds, timeout=3000), pieces):
+        if rc != 0 or summ is None:
+            c.violation("replay child crashed (rc=%s) while driving the real code on %s %s" % (rc, p, label),
+                        {"file": p, "args": list(module_args) + list(extra_args)})
+            continue
+        tb += summ["behaviours"]
+        ts += summ["steps"]
+        for f in summ["first_failures"][:1]:
+            f["adapter"] = list(module_args) + list(extra_args)
+            c.violation("%s %s at step %s: %s" % (what, label, f["step"], f["msg"]), f)
+    for p in pieces:
+        os.remove(p)
+    return tb, ts
+
+
+def trace_step(c, rt, module_args, trace_module, trace_cfg, nfiles, events, extra_args=(), what="implementation trace rejected by the specification"):
+    wd = workdir(c.prop.lower())
+    s = seed()
+    cmds, paths = [], []
+    for i in range(nfiles):
+        path = os.path.join(wd, "%s_%d.ndjson" % (trace_module, i))
+        cmds.append([rt] + list(module_args) + ["trace", path, "--seed", str(s * 1000 + i), "--events", str(events)] + list(extra_args))
+        paths.append(path)
+    ok = 0
+    for (rc, summ, out), path in zip(run_parallel(cmds, timeout=3000), paths):
+        if rc != 0:
+            c.violation("trace driver crashed rc=%s while driving the real code" % rc, {"trace": path, "cmd": cmds[0]})
+            continue
+        r = run_tlc(trace_module, trace_cfg, name="%s_%s" % (trace_module, os.path.basename(path)),
+                    workers=1, env={"TRACE": path}, depth_first=True, timeout=1200)
+        nev = sum(1 for _ in open(path))
+        if r.violation or r.distinct < nev + 1:
+            line = r.depth
+            evs = open(path).read().splitlines()
+            bad = evs[line - 1] if 0 < line <= len(evs) else ""
+            c.violation("%s at event %d: %s [%s]" % (what, line, bad[:500], r.violation), None, replay_path=path)
+        else:
+            ok += nev
+            c.cov["traces_validated_against_impl"] += 1
+            c.add_tlc("%s(%s)" % (trace_cfg, os.path.basename(path)), r, exhaustive=False)
+            if c.cov.get("trace_sample") is None:
+                with open(path) as f:
+                    f.readline()
+                    c.cov["trace_sample"] = json.loads(f.readline())
+    return ok
+
+
+def replay_one(c, rt, module_args, path, trace_module=None, trace_cfg=None):
+    """Generic --replay: an ndjson trace goes back through TLC, a behaviour file through the adapter."""
+    if path.endswith(".ndjson"):
+        r = run_tlc(trace_module, trace_cfg, name="trace_replay", workers=1, env={"TRACE": path}, depth_first=True)
+        nev = sum(1 for _ in open(path))
+        if r.violation or r.distinct < nev + 1:
+            c.violation("trace rejected at event %d" % r.depth, None, replay_path=path)
+    else:
+        obj = json.load(open(path))
+        rep = obj["replay"]
+        tmp = os.path.join(workdir(c.prop.lower()), "one.jsonl")
+        with open(tmp, "w") as f:
+            f.write(json.dumps(rep["beh"]) + "\n")
+        args = rep.get("adapter", list(module_args))
+        cut = args.index("replay") if "replay" in args else None
+        pre = args if cut is None else args[:cut]
+        post = [] if cut is None else args[cut + 1:]
+        rc, summ, out = run_adapter([rt] + list(pre) + ["replay", tmp] + list(post))
+        if rc != 0 or summ is None or summ["failures"]:
+            c.violation("replayed behaviour still fails: %s" % (summ and summ["first_failures"]), None, replay_path=path)
+    c.finish({"evaluations": 1, "distinct_nontrivial": 1})
